@@ -26,6 +26,11 @@ reference to the ``Subprocess`` object (keeps pid, stdin pipe, callback record /
 ``gc.collect()`` — the documented usage ``fut = Subprocess(cmd).wait_for_exit()``.  The exit must still be
 reported; ``returncode`` attributes are then not observable and not checked.
 
+Failing callbacks (child flag ``raises``, callback API): the exit callback records its call and then
+raises.  Every other child must still be reported exactly once (the failing one counts as called once);
+the IOLoop's "Exception in callback" log record is captured (label only), as is anything that reaches
+the asyncio loop's exception handler.
+
 Inherited dispositions: started from a background job or under ``nohup`` the check inherits SIGINT/
 SIGQUIT/SIGHUP as *ignored*, which exec passes on to the shell children — they would survive the
 signal the case sends and the harness would wait for their death forever.  For the duration of a case
@@ -70,11 +75,16 @@ Sensitivity (quick tier, seed 1, one mutant at a time on a scratch copy):
     dropped; the late registration never fires) .......................... caught at seeds 1..3
     (C42.not_reported, systematically by the 8 fixed "late registration behind a pending one" cases:
     all API pairs x exit/signal, and by generated programs with 5 loop iterations after a release)
+  * ``_try_cleanup_process`` calls ``subproc._set_returncode(status)`` directly instead of through
+    ``io_loop.add_callback`` (the user's exit callback runs inside the SIGCHLD sweep; one that raises
+    aborts the sweep and the remaining children are never reported) ...... caught (C42.not_reported, by the
+    ``raises`` children under a single coalesced SIGCHLD: 4 fixed cases + generated)
   * DESIGN's "callback not cleared before invocation" is equivalent for every history in the
     statement's domain (``_set_returncode`` runs once per reaped pid), so it was replaced by the above.
 """
 import asyncio
 import gc
+import logging
 import os
 import select
 import signal
@@ -94,8 +104,9 @@ RULE = (
     "HUP/INT/KILL/TERM/USR1/PIPE sent by the child itself or from outside; callback or future API; "
     "raise_error T/F), a permutation of register/release operations with 0-5 loop iterations after each, "
     "optional probe child afterwards, optional SIGCHLD blocking so that all deaths arrive as ONE SIGCHLD, "
-    "optional dropping of every reference to the Subprocess after registration; "
-    "plus 15 fixed cases covering every listed status and signal and real coalescing; "
+    "optional dropping of every reference to the Subprocess after registration, optional exit callback "
+    "that raises; "
+    "plus 19 fixed cases covering every listed status and signal and real coalescing; "
     "non-trivial = >=2 children with different timing classes (exit before vs after registration) or a "
     "signal exit; distinct = SHA-1 of the case"
 )
@@ -187,6 +198,7 @@ class Child:
         self.pid = self.sub.pid
         self.stdin = self.sub.stdin  # the pipe object alone does not keep the Subprocess/Popen alive
         self.dropped = False
+        self.raised_into_registration = False
         self.calls = []
         self.future = None
         self.truth = None
@@ -197,7 +209,15 @@ class Child:
     def register(self):
         self.registered = True
         if self.spec["api"] == "callback":
-            self.sub.set_exit_callback(self.calls.append)
+            if self.spec.get("raises"):
+                try:
+                    self.sub.set_exit_callback(self._failing_callback)
+                except RuntimeError:
+                    # the callback ran (and failed) synchronously inside the registration: the statement
+                    # does not forbid that by itself, so it is only recorded
+                    self.raised_into_registration = True
+            else:
+                self.sub.set_exit_callback(self.calls.append)
         else:
             self.future = self.sub.wait_for_exit(raise_error=self.spec["raise_error"])
         if self.spec.get("drop_ref"):
@@ -206,6 +226,11 @@ class Child:
             self.sub = None
             self.dropped = True
             gc.collect()
+
+    def _failing_callback(self, ret):
+        """An application exit callback that fails: it must not keep anybody else from being notified."""
+        self.calls.append(ret)
+        raise RuntimeError("exit callback of child %d failed (intended by the case)" % self.idx)
 
     def release(self):
         self.released = True
@@ -377,11 +402,24 @@ def run_case(ctx, case):
     loop = asyncio.new_event_loop()
     asyncio.set_event_loop(loop)
     io_loop = AsyncIOLoop(asyncio_loop=loop, make_current=False)
-    out = {"grace": 0}
+    out = {"grace": 0, "logged": [], "loop_handler": []}
+
+    class _Capture(logging.Handler):
+        def emit(self, record):
+            out["logged"].append(record.getMessage()[:120])
+
+    # a failing exit callback is logged by the IOLoop ("Exception in callback"): keep it off stderr
+    app_logger = logging.getLogger("tornado.application")
+    capture, saved_propagate = _Capture(), app_logger.propagate
+    app_logger.addHandler(capture)
+    app_logger.propagate = False
+    loop.set_exception_handler(lambda _loop, context: out["loop_handler"].append(repr(context.get("exception"))[:120]))
     try:
         with default_dispositions_for_children():
             loop.run_until_complete(scenario(ctx, case, out))
     finally:
+        app_logger.removeHandler(capture)
+        app_logger.propagate = saved_propagate
         try:
             io_loop.close(all_fds=False)
         finally:
@@ -407,6 +445,10 @@ def run_case(ctx, case):
             labels.add("status_nonzero")
         if spec["api"] == "future":
             labels.add("raise_error_true" if spec["raise_error"] else "raise_error_false")
+        if spec.get("raises") and spec["api"] == "callback":
+            labels.add("exit_callback_raises")
+            if case.get("coalesce") and m >= 2:
+                labels.add("exit_callback_raises_in_coalesced_sweep")
         if spec.get("drop_ref"):
             labels.add("subprocess_ref_dropped")
             if timing[i] == "after":
@@ -447,6 +489,10 @@ def run_case(ctx, case):
         labels.add("probe_child")
     if out["grace"]:
         labels.add("needed_real_time_grace")
+    if out["logged"]:
+        labels.add("callback_exception_logged_by_ioloop")
+    if out["loop_handler"]:
+        labels.add("exception_reached_asyncio_loop_handler")
     mixed = len(set(timing.values())) >= 2
     if mixed:
         labels.add("mixed_timing")
@@ -465,6 +511,7 @@ _child = st.fixed_dictionaries({
     "api": st.sampled_from(["callback", "future"]),
     "raise_error": st.booleans(),
     "drop_ref": st.sampled_from([False, False, True]),
+    "raises": st.sampled_from([False, False, False, True]),
 })
 
 
@@ -516,6 +563,15 @@ def fixed_cases():
                 program += [("release", j, 0) for j in range(1, n_b)] + [("release", n_b, 6)]
                 program += [("register", j, 2) for j in range(1, n_b + 1)] + [("release", 0, 0)]
                 yield {"children": children, "program": program, "probe": None, "coalesce": False}
+    # a failing exit callback inside a sweep that covers several children (one SIGCHLD for all of them):
+    # everybody else must still be notified.  The failing child is registered first / in the middle.
+    for pos in (0, 1):
+        for other_api in ("callback", "future"):
+            children = [ch(("status", 11), other_api, False), ch(("status", 0), other_api, True), ch(("status", 3), "callback")]
+            children.insert(pos, dict(ch(("status", 7), "callback"), raises=True))
+            n = len(children)
+            program = [("register", j, 0) for j in range(n)] + [("release", j, 0) for j in reversed(range(n))]
+            yield {"children": children, "program": program, "probe": "callback", "coalesce": True}
     # the caller keeps no reference to the Subprocess objects (only callback / future)
     yield {"children": [dict(ch(("status", 5), "future", True), drop_ref=True), dict(ch(("status", 0), "callback"), drop_ref=True),
                         dict(ch(("signal", "TERM", "external"), "future", False), drop_ref=True)],
